@@ -639,6 +639,11 @@ pub fn check(prop: &str, tier: Tier) -> i32 {
             col.harness_errors.retain(|e| !e.starts_with("determinism audit"));
         }
     }
+    // a panic of the harness itself inside a run is a harness error (exit 2), never a property violation
+    for f in findings.iter().filter(|f| f.violation.kind == "harness-error") {
+        col.harness_errors.push(format!("{} (replay {})", f.violation.message, f.replay_path));
+    }
+    findings.retain(|f| f.violation.kind != "harness-error");
     let unknown: Vec<&Finding> = findings.iter().filter(|f| f.known.is_none()).collect();
     let wall = t0.elapsed().as_secs_f64();
 
